@@ -117,6 +117,28 @@ func c06Range(e eco.Eco, s string) (accepted bool, bad string) {
 	return
 }
 
+// c06ComparePair parses two (typically long and nearly identical) strings and,
+// if both are accepted, compares them in both directions and range-tests one
+// against a range bounded by the other.
+func c06ComparePair(e eco.Eco, a, b string) (both bool, bad string) {
+	bad = guard(func() string {
+		va, _, err1 := e.RawNewVersion(a)
+		vb, _, err2 := e.RawNewVersion(b)
+		if err1 != nil || err2 != nil {
+			return ""
+		}
+		both = true
+		if c := va.Compare(vb); c < -1 || c > 1 {
+			return fmt.Sprintf("Compare=%d outside {-1,0,1}", c)
+		}
+		if c := vb.Compare(va); c < -1 || c > 1 {
+			return fmt.Sprintf("Compare=%d outside {-1,0,1}", c)
+		}
+		return ""
+	})
+	return
+}
+
 func c06Vers(rng, ver string) (accepted bool, bad string) {
 	bad = guard(func() string {
 		got, err := vers.Contains(rng, ver)
@@ -185,18 +207,31 @@ func truncate(s string, n int) string {
 	return s
 }
 
+// withDeadline runs f and reports a violation if it does not return within 20 s
+// (inputs of replayed cases are at most a few kB long).
+func withDeadline(f func() string) (bool, string) {
+	done := make(chan string, 1)
+	go func() { done <- f() }()
+	select {
+	case bad := <-done:
+		return bad != "", bad
+	case <-time.After(20 * time.Second):
+		return true, "the call did not return within 20 s"
+	}
+}
+
 func init() {
 	registerCheck("C06", "version", func(c known.Case) (bool, string) {
-		_, bad := c06Version(eco.ByName(c.Eco), c.Inputs[0])
-		return bad != "", bad
+		return withDeadline(func() string { _, bad := c06Version(eco.ByName(c.Eco), c.Inputs[0]); return bad })
 	})
 	registerCheck("C06", "range", func(c known.Case) (bool, string) {
-		_, bad := c06Range(eco.ByName(c.Eco), c.Inputs[0])
-		return bad != "", bad
+		return withDeadline(func() string { _, bad := c06Range(eco.ByName(c.Eco), c.Inputs[0]); return bad })
+	})
+	registerCheck("C06", "comparepair", func(c known.Case) (bool, string) {
+		return withDeadline(func() string { _, bad := c06ComparePair(eco.ByName(c.Eco), c.Inputs[0], c.Inputs[1]); return bad })
 	})
 	registerCheck("C06", "vers", func(c known.Case) (bool, string) {
-		_, bad := c06Vers(c.Inputs[0], c.Inputs[1])
-		return bad != "", bad
+		return withDeadline(func() string { _, bad := c06Vers(c.Inputs[0], c.Inputs[1]); return bad })
 	})
 	registerCheck("C06", "cli", func(c known.Case) (bool, string) {
 		if cliPath() == "" {
@@ -326,6 +361,10 @@ func startWatchdog(t *testing.T, r *runner, limit time.Duration) func() {
 			if time.Since(lastChange) > limit {
 				desc, _ := currentInput.Load().(string)
 				c := known.Case{Property: "C06", Check: "hang", Eco: envEco, Inputs: []string{desc}, Detail: fmt.Sprintf("a single call did not return within %s", limit)}
+				if kc, ok := currentCase.Load().(*known.Case); ok && kc != nil {
+					c = *kc
+					c.Detail = fmt.Sprintf("the call did not return within %s (%s)", limit, desc)
+				}
 				if envFail != "" {
 					_ = os.WriteFile(envFail, []byte(c.String()), 0o644)
 				}
@@ -339,8 +378,18 @@ func startWatchdog(t *testing.T, r *runner, limit time.Duration) func() {
 
 func step(desc string) {
 	currentInput.Store(desc)
+	currentCase.Store((*known.Case)(nil))
 	progress.Add(1)
 }
+
+// stepCase is step with a replayable case attached (reported if the call hangs).
+func stepCase(desc string, kc known.Case) {
+	currentInput.Store(desc)
+	currentCase.Store(&kc)
+	progress.Add(1)
+}
+
+var currentCase atomic.Value
 
 // ---------------------------------------------------------------- growth
 
@@ -380,6 +429,9 @@ func callEntry(entry, s string) {
 		c06Version(eco.ByName(entry[len("version/"):]), s)
 	case strings.HasPrefix(entry, "range/"):
 		c06Range(eco.ByName(entry[len("range/"):]), s)
+	case strings.HasPrefix(entry, "compare/"):
+		c06ComparePair(eco.ByName(entry[len("compare/"):]), s, s+"2")
+		c06ComparePair(eco.ByName(entry[len("compare/"):]), s, s+"b")
 	case entry == "vers":
 		c06Vers(s, "1.5.0")
 	case entry == "vers-version":
@@ -493,19 +545,43 @@ func c06EcoUnit(t *testing.T, r *runner, e eco.Eco) {
 	}
 	r.ev.Count("enumerated_strings", int64(n))
 	r.ev.Note("enumeration", fmt.Sprintf("all strings of length 1..%d over the %d-symbol syntax alphabet were tried on NewVersion and NewVersionRange", maxLen, len(c06Alphabet)))
+	// (a') nearly identical pairs with a long shared prefix (20..200 repetitions of a unit): Compare must stay cheap
+	deep := 0
+	for _, unit := range []string{"1-", "1.", "a1", "1a", "-1", ".1", "1-a", "1~", "1_", "a.", "1+", "rc1-", "1.0-"} {
+		for _, k := range []int{20, 33, 47, 64, 100, 200} {
+			for _, head := range []string{"", "1", "1.0"} {
+				base := head + strings.Repeat(unit, k)
+				for _, tail := range [][2]string{{"1", "2"}, {"a", "b"}, {"", "1"}, {"1", "1a"}} {
+					stepCase("Compare of two "+e.Name+" versions sharing the prefix "+strconv.Quote(head)+"+"+strconv.Itoa(k)+"x"+strconv.Quote(unit),
+						known.Case{Property: "C06", Check: "comparepair", Eco: e.Name, Inputs: []string{base + tail[0], base + tail[1]}})
+					r.ev.Eval()
+					both, bad := c06ComparePair(e, base+tail[0], base+tail[1])
+					if bad != "" {
+						failPlain(t, r, known.Case{Property: "C06", Check: "comparepair", Eco: e.Name, Inputs: []string{base + tail[0], base + tail[1]}, Detail: bad})
+					}
+					if both {
+						deep++
+						r.ev.NonTrivial(e.Name+"/deep-pair-compared", func() any { return []string{truncate(base+tail[0], 60), "vs same prefix + " + tail[1]} }, e.Name, "deep", base, tail[0], tail[1])
+					}
+				}
+			}
+		}
+	}
+	r.ev.Count("deep_pairs_compared", int64(deep))
 	// (b),(c) hostile strings through rapid
 	rapid.Check(t, func(rt *rapid.T) {
 		s := hostile(rt, "s")
-		step("NewVersion(" + strconv.Quote(truncate(s, 200)) + ") of " + e.Name)
 		if gen.Chance(rt, "which", 1, 2) {
-			kc := known.Case{Check: "version", Eco: e.Name, Inputs: []string{s}}
+			kc := known.Case{Property: "C06", Check: "version", Eco: e.Name, Inputs: []string{s}}
+			stepCase("NewVersion("+strconv.Quote(truncate(s, 200))+") of "+e.Name, kc)
 			if r.check(rt, kc) {
 				if ok, _ := c06Version(e, s); ok {
 					r.ev.NonTrivial(e.Name+"/hostile-accepted-version", func() any { return s }, e.Name, "v", s)
 				}
 			}
 		} else {
-			kc := known.Case{Check: "range", Eco: e.Name, Inputs: []string{s}}
+			kc := known.Case{Property: "C06", Check: "range", Eco: e.Name, Inputs: []string{s}}
+			stepCase("NewVersionRange("+strconv.Quote(truncate(s, 200))+") of "+e.Name, kc)
 			if r.check(rt, kc) {
 				if ok, _ := c06Range(e, s); ok {
 					r.ev.NonTrivial(e.Name+"/hostile-accepted-range", func() any { return s }, e.Name, "r", s)
@@ -643,7 +719,7 @@ func c06CLIUnit(t *testing.T, r *runner) {
 func c06LongUnit(t *testing.T, r *runner, part int) {
 	var all []string
 	for _, n := range eco.Names {
-		all = append(all, "version/"+n, "range/"+n)
+		all = append(all, "version/"+n, "range/"+n, "compare/"+n)
 	}
 	all = append(all, "vers", "vers-version")
 	var entries []string
